@@ -88,14 +88,26 @@ def handle (fields : List String) : Option String :=
       | .error _ => "error"
       | .ok _ => "ok " ++ hexStr (JournalPrinter.print days))
   | ["c03mtm", v, j, f, dates] => some (
-    -- exact mark-to-market values: one line item per A/L account: name|D:mtmD:mtmF:steps|…  (F = day before the window start)
+    -- exact mark-to-market values: one line item per A/L account: name|D:mtmD:mtmF:steps|…  (F = day before the window start;
+    -- steps = Spec.stepBound, the bound proved in Properties/C03Report.lean: C03_command_cell)
     match (parseJournal j).bind Knut.Driver.C04.toDirectives, f.toInt?, (splitOn dates ',').mapM (·.toInt?) with
     | some ds, some F, some Ds =>
       let days := (Builder.ofList ds).build
       let showO : Option Rat → String := fun o => match o with | some r => Dec.showRat r | none => "none"
       String.intercalate " " ((Spec.alAccounts days).map (fun a =>
         a.name ++ "|" ++ String.intercalate "|" (Ds.map (fun D =>
-          s!"{D}:{showO (Spec.mtm v days a D)}:{showO (Spec.mtm v days a F)}:{Spec.steps days a F D}"))))
+          s!"{D}:{showO (Spec.mtm v days a D)}:{showO (Spec.mtm v days a F)}:{Spec.stepBound v days a F D}"))))
+    | _, _, _ => "bad-op")
+  | ["c03flow", v, j, f, dates] => some (
+    -- bookings valued at the price of their own day (Spec.flowAt, exact): one item per account with a booking:
+    -- name|D:flow|…  over the window (F, D]
+    match (parseJournal j).bind Knut.Driver.C04.toDirectives, f.toInt?, (splitOn dates ',').mapM (·.toInt?) with
+    | some ds, some F, some Ds =>
+      let days := (Builder.ofList ds).build
+      let showO : Option Rat → String := fun o => match o with | some r => Dec.showRat r | none => "none"
+      let accounts := ((Spec.userPostings days).map (fun x => x.2.account)).eraseDups
+      String.intercalate " " (accounts.map (fun a =>
+        a.name ++ "|" ++ String.intercalate "|" (Ds.map (fun D => s!"{D}:{showO (Spec.flowAt v days a F D)}"))))
     | _, _, _ => "bad-op")
   | ["balance-spec", fl, j] => some (
     match parseFlags fl, (parseJournal j).map Knut.Driver.C04.load with
